@@ -274,3 +274,8 @@ Definition reproject_nonlinear (c : consts) (back fwd : ptrans) (scale_at : Q * 
     k <- pick_read_scale scale (c_rs c) ;;
     Ok (mkInfo rs rd false k scale (sx, sy))
   else Ok (mkInfo rs rd false 1%Z 0 (0, 0)).
+
+(** index of the source element that [dst[dst_sl] = src[src_sl]] (reversed when
+    the axis is mirrored) copies to destination position [d] *)
+Definition paste_index (src dst : Z * Z) (flip : bool) (d : Z) : Z :=
+  if flip then (snd src - 1 - (d - fst dst))%Z else (fst src + (d - fst dst))%Z.
